@@ -422,7 +422,7 @@ VALUE_EQ_BASES = {"NamedTuple", "tuple", "str", "int", "frozenset", "typing.Name
 def identity_keys(prog: Program) -> RuleResult:
     res = RuleResult(
         "IDENTITY-KEYS",
-        "a class whose instances are created without arguments to stand for distinct virtual nodes and are "
+        "a class whose instances are created (without arguments, or as stand-ins stored beside real tree nodes) to stand for distinct virtual nodes and are "
         "used as dictionary keys / set elements (render.model.PseudoGene: one per full loss) compares and "
         "hashes by identity: it has no value-equality base (NamedTuple, tuple, dataclass with eq) and "
         "defines neither __eq__ nor __hash__ - otherwise two losses collapse into one entry",
@@ -432,7 +432,7 @@ def identity_keys(prog: Program) -> RuleResult:
         if not isinstance(node, ast.ClassDef) or "." in qual:
             continue
         # instantiated with no arguments somewhere in the package and the instance is used as key / element
-        uses = _zero_arg_instances(prog, node.name)
+        uses = _zero_arg_instances(prog, node.name) or _standin_instances(prog, node.name)
         if not uses:
             continue
         keyed = [u for u in uses if u[2]]
@@ -468,6 +468,39 @@ def identity_keys(prog: Program) -> RuleResult:
             res.ok(construct, f"{len(uses)} creation sites, {len(keyed)} used as key/element; identity semantics")
     res.floor(1)
     return res
+
+
+def _standin_instances(prog: Program, clsname: str):
+    """Instances created WITH arguments that stand in for tree nodes: bound to a local that is used as a key of a
+    mapping `X[...]["k"][local]` whose sibling stores (same final key path) are keyed by a traversal loop variable."""
+    out = []
+    tree_keyed_paths = set()
+    for mod, qual, fn in prog.functions():
+        loop_vars = {
+            l.target.id for l in ast.walk(fn)
+            if isinstance(l, ast.For) and isinstance(l.target, ast.Name) and isinstance(l.iter, ast.Call) and isinstance(l.iter.func, ast.Attribute) and l.iter.func.attr == "traverse"
+        }
+        for st in ast.walk(fn):
+            if isinstance(st, ast.Assign) and isinstance(st.targets[0], ast.Subscript) and isinstance(st.targets[0].slice, ast.Name) and st.targets[0].slice.id in loop_vars:
+                inner = st.targets[0].value
+                if isinstance(inner, ast.Subscript) and isinstance(inner.slice, ast.Constant):
+                    tree_keyed_paths.add(inner.slice.value)
+    for mod, qual, fn in prog.functions():
+        for call in ast.walk(fn):
+            if isinstance(call, ast.Call) and isinstance(call.func, ast.Name) and call.func.id == clsname and (call.args or call.keywords):
+                res = resolve_name(prog, mod, clsname)
+                if res is None or not isinstance(res[1], ast.ClassDef):
+                    continue
+                par = mod.parent(call)
+                if not (isinstance(par, ast.Assign) and len(par.targets) == 1 and isinstance(par.targets[0], ast.Name)):
+                    continue
+                var = par.targets[0].id
+                for st in ast.walk(fn):
+                    if isinstance(st, ast.Assign) and isinstance(st.targets[0], ast.Subscript) and isinstance(st.targets[0].slice, ast.Name) and st.targets[0].slice.id == var:
+                        inner = st.targets[0].value
+                        if isinstance(inner, ast.Subscript) and isinstance(inner.slice, ast.Constant) and inner.slice.value in tree_keyed_paths:
+                            out.append((mod, st.targets[0], True))
+    return out
 
 
 def _zero_arg_instances(prog: Program, clsname: str):
@@ -880,7 +913,7 @@ INPUT_CLASSES = ("ReconciliationInput", "SuperReconciliationInput")
 def readonly_input(prog: Program) -> RuleResult:
     res = RuleResult(
         "READONLY-INPUT",
-        "a solver never writes into the input object it is given: no store, in-place operator or mutating "
+        "a solver or a renderer never writes into the input / solution object it is given: no store, in-place operator or mutating "
         "method on anything reached from a parameter annotated with an input class (its mappings, cost "
         "vector, trees) - the caller's input is used again, and leaf_object_species must keep only leaves. "
         "(label_internal() on a refinement produced by binarize() is a write to a fresh object.)",
@@ -888,12 +921,12 @@ def readonly_input(prog: Program) -> RuleResult:
     n = 0
     for mod, qual, fn in prog.functions():
         key = _modkey(mod)
-        if not key.startswith("compute."):
+        if not key.startswith(("compute.", "render.")):
             continue
         in_params = []
         for arg in fn.args.args + fn.args.kwonlyargs:  # type: ignore[attr-defined]
             ann = dotted(arg.annotation) if arg.annotation is not None else None
-            if ann in INPUT_CLASSES:
+            if ann in INPUT_CLASSES or (key.startswith("render.") and ann in ("ReconciliationOutput", "SuperReconciliationOutput")):
                 in_params.append(arg.arg)
         if not in_params:
             continue
